@@ -15,6 +15,7 @@ import (
 	"strings"
 	"sync"
 	"syscall"
+	"time"
 
 	"github.com/fabiolb/fabio/cert"
 	"verif/harness/hx"
@@ -123,8 +124,22 @@ func (s *ldServer) ServeHTTP(w http.ResponseWriter, r *http.Request) {
 	}
 }
 
+// listenLoopback opens a loopback listener on a port of the system's choice. On a machine that runs many checks at
+// once the ephemeral ports can be used up for a moment ("bind: address already in use" for port 0): that says
+// nothing about the code under test, so the harness waits for a port instead of failing the case.
+func listenLoopback() (net.Listener, error) {
+	var ln net.Listener
+	var err error
+	for dl := time.Now().Add(60 * time.Second); ; {
+		if ln, err = net.Listen("tcp", "127.0.0.1:0"); err == nil || time.Now().After(dl) {
+			return ln, err
+		}
+		time.Sleep(200 * time.Millisecond)
+	}
+}
+
 func newLdServerListen() (*ldServer, error) {
-	ln, err := net.Listen("tcp", "127.0.0.1:0")
+	ln, err := listenLoopback()
 	if err != nil {
 		return nil, err
 	}
@@ -164,14 +179,22 @@ func (s *ldServer) takeLog() []string {
 }
 
 var (
-	sharedSrv     *ldServer
-	sharedSrvOnce sync.Once
-	sharedSrvErr  error
+	sharedSrv   *ldServer
+	sharedSrvMu sync.Mutex
 )
 
+// theServer is the one HTTP server of the process; a failure to open it is not remembered (the next case tries again).
 func theServer() (*ldServer, error) {
-	sharedSrvOnce.Do(func() { sharedSrv, sharedSrvErr = newLdServer() })
-	return sharedSrv, sharedSrvErr
+	sharedSrvMu.Lock()
+	defer sharedSrvMu.Unlock()
+	if sharedSrv == nil {
+		s, err := newLdServer()
+		if err != nil {
+			return nil, err
+		}
+		sharedSrv = s
+	}
+	return sharedSrv, nil
 }
 
 func (s *ldServer) real(u string) string {
